@@ -52,3 +52,42 @@ Definition which_fails (c : lcase) : nat :=
     else if negb (block_beq (fst (return_pass b2)) b3 && Bool.eqb (snd (return_pass b2)) used) then 3 else 0 end.
 Definition failing_lcases (cs : list lcase) : list nat :=
   map (fun c => match c with (i, _, _, _, _, _) => i end) (filter (fun c => negb (check_lcase c)) cs).
+
+(* ---- validation of the SEMANTICS of the lowering language against CPython ------------------------------
+   A real run of the original function under a decision vector yields the ordered log of external events
+   (T / D / loop-iteration / context-manager entry), the decisions in the order they were consumed (with
+   the index of the handler every raised exception was dispatched to inserted where it was raised) and the
+   way the call ended.  The interpreter, run on the exported body with these decisions, must produce a
+   trace whose labels expand (evmap: label -> events of that statement) to the same log and the same
+   kind of outcome. *)
+(* events are pairs (kind, key) of small numbers; evmaps: per program, label -> events of that statement *)
+Definition ev : Set := (nat * nat)%type.
+Definition scase : Set := (nat * nat * list nat * list ev * nat)%type.   (* id, program, decisions, log, ending *)
+Fixpoint lookup_ev (m : list (nat * list ev)) (l : nat) : list ev :=
+  match m with [] => [] | (k, v) :: r => if Nat.eqb k l then v else lookup_ev r l end.
+Definition project (m : list (nat * list ev)) (tr : list label) : list ev := flat_map (lookup_ev m) tr.
+Fixpoint list_ev_beq (a b : list ev) : bool :=
+  match a, b with
+  | [] , [] => true
+  | (x1, x2) :: r, (y1, y2) :: q => Nat.eqb x1 y1 && Nat.eqb x2 y2 && list_ev_beq r q
+  | _, _ => false
+  end.
+(* what a caller can see of the way a call ended: 9 = it completed (fell off the end or returned), 2 = exception *)
+Definition outcome_ok (o : outcome) (oc : nat) : bool :=
+  match o with
+  | ONormal | ORet => Nat.eqb oc 9
+  | ORaise => Nat.eqb oc 2
+  | _ => false
+  end.
+Definition b0_of (c : lcase) : block := match c with (_, b0, _, _, _, _) => b0 end.
+Definition check_scase (cs : list lcase) (ms : list (list (nat * list ev))) (c : scase) : bool :=
+  match c with (_, i, dv, evs, oc) =>
+    match nth_error cs i, nth_error ms i with
+    | Some lc, Some m =>
+        let '(tr, o, _, d') := exec_block 600 (b0_of lc) (fun _ => false) dv in
+        list_ev_beq (project m tr) evs && outcome_ok o oc && match d' with [] => true | _ => false end
+    | _, _ => false
+    end
+  end.
+Definition failing_scases (cs : list lcase) (ms : list (list (nat * list ev))) (ss : list scase) : list nat :=
+  map (fun c => match c with (j, _, _, _, _) => j end) (filter (fun c => negb (check_scase cs ms c)) ss).
